@@ -121,7 +121,8 @@ fn literal(special: &FormatSpecial) -> CResult<String> {
         FormatSpecial::Backslash => verbatim("\\"),
         FormatSpecial::Backspace => "\\b".to_string(),
         FormatSpecial::CarriageReturn => "\\r".to_string(),
-        FormatSpecial::Clear => "\\c".to_string(),
+        // Scheme strings have no such escape and a policy cannot stop a format half-way
+        FormatSpecial::Clear => return Err(CompileError::UnsupportedFormat(format!("{special:?}"))),
         FormatSpecial::Form => "\\f".to_string(),
         FormatSpecial::Newline => "\\n".to_string(),
         FormatSpecial::Null => "\\0".to_string(),
